@@ -247,7 +247,19 @@ impl DBM {
     /// reference to them.
     pub fn remove_tower_record(&self, tower_id: TowerId) -> Result<(), Error> {
         let query = "DELETE FROM towers WHERE tower_id=?";
-        self.remove_data(query, params![tower_id.to_vec()])
+        self.remove_data(query, params![tower_id.to_vec()])?;
+
+        // The cascade only takes the links (pending_appointments / invalid_appointments) with it. Delete the bodies that no
+        // other tower is referencing anymore.
+        self.connection
+            .execute(
+                "DELETE FROM appointments
+                    WHERE locator NOT IN (SELECT locator FROM pending_appointments)
+                    AND locator NOT IN (SELECT locator FROM invalid_appointments)",
+                [],
+            )
+            .map(|_| ())
+            .map_err(Error::Unknown)
     }
 
     /// Loads all tower records from the database.
